@@ -328,3 +328,47 @@ package crypto
 //@   ensures [never-empty] result == nil ==> istype(signature, *BLS12AggregateSignature) && as(signature, *BLS12AggregateSignature).participants.len >= 1
 //@   loop iter0 invariant [keys] *errs == nil && (forall x hotstuff.ID :: {visited(iter0, x)} visited(iter0, x) ==> blskey(bls, x))
 //@   opt noframe true
+
+// The participant set of a multi-signature is iterated in list order: the k-th call of the
+// callback gets the signer of the k-th entry (the signature cache pairs these ids with the
+// signature bytes, which ToBytes also emits in list order); RangeWhile stops after the first
+// call that returns false.
+//@ func (Multi[*ECDSASignature]).ForEach property C19,C11
+//@   opt callbacks trace
+//@   requires f != nil && mnonnil(sig)
+//@   ensures [one-call-per-entry] tracelen(cb) == old(tracelen(cb)) + len(sig)
+//@   ensures [in-list-order] forall i int :: {traceat(cb, 1, i)} old(tracelen(cb)) <= i && i < tracelen(cb) ==> traceat(cb, 1, i) == sig[i - old(tracelen(cb))].signer
+//@   loop 0 invariant [count] tracelen(cb) == old(tracelen(cb)) + rangeindex + 1
+//@   loop 0 invariant [in-list-order] forall i int :: {traceat(cb, 1, i)} old(tracelen(cb)) <= i && i < tracelen(cb) ==> traceat(cb, 1, i) == sig[i - old(tracelen(cb))].signer
+//@   modifies trace(cb)
+//@ func (Multi[*ECDSASignature]).RangeWhile property C19,C11
+//@   opt callbacks trace
+//@   requires f != nil && mnonnil(sig)
+//@   ensures [at-most-one-call-per-entry] tracelen(cb) >= old(tracelen(cb)) && tracelen(cb) <= old(tracelen(cb)) + len(sig)
+//@   ensures [in-list-order] forall i int :: {traceat(cb, 1, i)} old(tracelen(cb)) <= i && i < tracelen(cb) ==> traceat(cb, 1, i) == sig[i - old(tracelen(cb))].signer
+//@   ensures [stops-at-false] forall i int :: {traceat(cb, 2, i)} old(tracelen(cb)) <= i && i < tracelen(cb) - 1 ==> traceat(cb, 2, i) == 1
+//@   ensures [complete-unless-stopped] tracelen(cb) == old(tracelen(cb)) || traceat(cb, 2, tracelen(cb) - 1) == 1 ==> tracelen(cb) == old(tracelen(cb)) + len(sig)
+//@   loop 0 invariant [count] tracelen(cb) == old(tracelen(cb)) + rangeindex + 1
+//@   loop 0 invariant [in-list-order] forall i int :: {traceat(cb, 1, i)} old(tracelen(cb)) <= i && i < tracelen(cb) ==> traceat(cb, 1, i) == sig[i - old(tracelen(cb))].signer
+//@   loop 0 invariant [alltrue] forall i int :: {traceat(cb, 2, i)} old(tracelen(cb)) <= i && i < tracelen(cb) ==> traceat(cb, 2, i) == 1
+//@   modifies trace(cb)
+
+//@ func (Multi[*EDDSASignature]).ForEach property C19,C11
+//@   opt callbacks trace
+//@   requires f != nil && mnonnilEd(sig)
+//@   ensures [one-call-per-entry] tracelen(cb) == old(tracelen(cb)) + len(sig)
+//@   ensures [in-list-order] forall i int :: {traceat(cb, 1, i)} old(tracelen(cb)) <= i && i < tracelen(cb) ==> traceat(cb, 1, i) == sig[i - old(tracelen(cb))].signer
+//@   loop 0 invariant [count] tracelen(cb) == old(tracelen(cb)) + rangeindex + 1
+//@   loop 0 invariant [in-list-order] forall i int :: {traceat(cb, 1, i)} old(tracelen(cb)) <= i && i < tracelen(cb) ==> traceat(cb, 1, i) == sig[i - old(tracelen(cb))].signer
+//@   modifies trace(cb)
+//@ func (Multi[*EDDSASignature]).RangeWhile property C19,C11
+//@   opt callbacks trace
+//@   requires f != nil && mnonnilEd(sig)
+//@   ensures [at-most-one-call-per-entry] tracelen(cb) >= old(tracelen(cb)) && tracelen(cb) <= old(tracelen(cb)) + len(sig)
+//@   ensures [in-list-order] forall i int :: {traceat(cb, 1, i)} old(tracelen(cb)) <= i && i < tracelen(cb) ==> traceat(cb, 1, i) == sig[i - old(tracelen(cb))].signer
+//@   ensures [stops-at-false] forall i int :: {traceat(cb, 2, i)} old(tracelen(cb)) <= i && i < tracelen(cb) - 1 ==> traceat(cb, 2, i) == 1
+//@   ensures [complete-unless-stopped] tracelen(cb) == old(tracelen(cb)) || traceat(cb, 2, tracelen(cb) - 1) == 1 ==> tracelen(cb) == old(tracelen(cb)) + len(sig)
+//@   loop 0 invariant [count] tracelen(cb) == old(tracelen(cb)) + rangeindex + 1
+//@   loop 0 invariant [in-list-order] forall i int :: {traceat(cb, 1, i)} old(tracelen(cb)) <= i && i < tracelen(cb) ==> traceat(cb, 1, i) == sig[i - old(tracelen(cb))].signer
+//@   loop 0 invariant [alltrue] forall i int :: {traceat(cb, 2, i)} old(tracelen(cb)) <= i && i < tracelen(cb) ==> traceat(cb, 2, i) == 1
+//@   modifies trace(cb)
